@@ -20,6 +20,7 @@ package main
 
 import (
 	"fmt"
+	"regexp"
 	"go/constant"
 	"go/token"
 	"go/types"
@@ -447,6 +448,9 @@ type scanWalker struct {
 	fc  *frameCtx
 	max int
 	lastLabel string // the last ragel label passed on the current path
+	lastAppend *Term // ghost: argument of the last NewLines.Append call on the current path (nil: none)
+	p0 *Term        // lex.p at the start of the region
+	nlRegion bool   // the region starts at a state or a transition action (a byte is being consumed)
 }
 
 func (se *scanEngine) binds(x *Exec, st *State, entryLex Val) binds {
@@ -535,6 +539,21 @@ func (se *scanEngine) execRegion(c *scanCut) (r *scanRegion) {
 		}
 	}
 	wk := &scanWalker{se: se, r: r, x: x, fc: fc}
+	if strings.HasPrefix(c.name, "st_case_") || (strings.HasPrefix(c.name, "tr") && !strings.Contains(c.name, "@")) {
+		if lv, ok := b["lex"]; ok {
+			if ref, isT := lv.V.(*Term); isT {
+				wk.nlRegion = true
+				wk.p0 = x.Sc.Define("p0", tSelect(x.heapGet(st, se.fieldKeyOf("p"), SArrII), ref))
+			}
+		}
+	}
+	x.onCall = func(cst *State, callee *ssa.Function, args []Val) {
+		if callee.Name() == "Append" && strings.HasSuffix(funcPkgPath(callee), "internal/scanner") && len(args) == 2 {
+			if t, ok := args[1].(*Term); ok {
+				wk.lastAppend = t
+			}
+		}
+	}
 	wk.walk(c.block, st, 0)
 	return r
 }
@@ -598,8 +617,12 @@ func (wk *scanWalker) walk(b *ssa.BasicBlock, st *State, depth int) {
 			se.mu.Unlock()
 			continue
 		}
+		if wk.nlRegion && reStateLabel.MatchString(s.Comment) {
+			wk.newlineObligation(st, g, s.Comment)
+		}
 		x.Sc.PushScope()
 		savedLabel := wk.lastLabel
+		savedAppend := wk.lastAppend
 		if tc := se.cuts[s]; tc != nil {
 			wk.r.nPaths++
 			es := st.clone()
@@ -611,6 +634,7 @@ func (wk *scanWalker) walk(b *ssa.BasicBlock, st *State, depth int) {
 			wk.walk(s, ns, depth+1)
 		}
 		wk.lastLabel = savedLabel
+		wk.lastAppend = savedAppend
 		x.Sc.PopScope()
 	}
 }
@@ -670,6 +694,71 @@ func switchTag(b *ssa.BasicBlock) *ssa.UnOp {
 		return nil
 	}
 	return ld
+}
+
+var reStateLabel = regexp.MustCompile(`^st[1-9][0-9]*$`) // st0 is the error exit, not an advance
+
+// fieldKeyOf: heap key of a scalar field of Lexer.
+func (se *scanEngine) fieldKeyOf(name string) string {
+	lt := se.fn.Params[0].Type().(*types.Pointer).Elem()
+	st, _ := isStruct(lt)
+	for i := 0; i < st.NumFields(); i++ {
+		if st.Field(i).Name() == name {
+			return fieldKey(lt, st, i)
+		}
+	}
+	return ""
+}
+
+// newlineObligation (C04: "1-based start and end lines where LF, CRLF and a lone CR each end one
+// line"): when the machine advances to the next state having consumed the byte it was looking at
+// (p unchanged since the region began), and that byte ends a line - LF, or CR not followed by LF -
+// then the line table was told so on this path (NewLines.Append(p+1) was called).
+func (wk *scanWalker) newlineObligation(st *State, g *Term, target string) {
+	x, se := wk.x, wk.se
+	a, ok := se.locals["lex"]
+	if !ok {
+		return
+	}
+	lexRef, isT := x.loadQuiet(st, se.localPtr[a]).(*Term)
+	if !isT {
+		return
+	}
+	lt := se.fn.Params[0].Type().(*types.Pointer).Elem()
+	stt, _ := isStruct(lt)
+	fld := func(name string) Val {
+		for i := 0; i < stt.NumFields(); i++ {
+			if stt.Field(i).Name() == name {
+				return x.loadQuiet(st, PtrV{Kind: "field", Key: fieldKey(lt, stt, i), Ref: lexRef, T: stt.Field(i).Type()})
+			}
+		}
+		return nil
+	}
+	pNow, _ := fld("p").(*Term)
+	pe, _ := fld("pe").(*Term)
+	data, okd := fld("data").(SliceV)
+	if pNow == nil || pe == nil || !okd {
+		return
+	}
+	var dataElem types.Type = types.Typ[types.Uint8]
+	for i := 0; i < stt.NumFields(); i++ {
+		if stt.Field(i).Name() == "data" {
+			dataElem = stt.Field(i).Type().Underlying().(*types.Slice).Elem()
+		}
+	}
+	byteAt := func(i *Term) *Term {
+		h := x.heapGet(st, elemKey(dataElem), SArr2I)
+		return tSelect(tSelect(h, data.Arr), tAdd(data.Off, i))
+	}
+	appended := tFalse
+	if wk.lastAppend != nil {
+		appended = tEq(wk.lastAppend, tAdd(wk.p0, mkInt(1)))
+	}
+	endsLine := tOr(tEq(byteAt(wk.p0), mkInt(10)),
+		tAnd(tEq(byteAt(wk.p0), mkInt(13)), tOr(tEq(tAdd(wk.p0, mkInt(1)), pe), tNe(byteAt(tAdd(wk.p0, mkInt(1))), mkInt(10)))))
+	goal := tImp(g, tImp(tAnd(tEq(pNow, wk.p0), tLe(mkInt(0), wk.p0), tLt(wk.p0, pe), endsLine), appended))
+	o := &Obligation{Name: x.Prefix + "/newline/" + x.site("newline", fmt.Sprintf("%s->%s:a consumed line end is recorded in the line table", wk.lastLabel, target)), Class: "newline", Props: se.props, Goal: goal}
+	x.Sc.AddObligation(o)
 }
 
 func labelOf(b *ssa.BasicBlock) string {
